@@ -24,11 +24,14 @@ import (
 	"math"
 	"net/http"
 	"net/http/httptest"
+	"os"
+	"os/exec"
 	"reflect"
 	"sort"
 	"strings"
 	"sync"
 	"sync/atomic"
+	"syscall"
 	"time"
 
 	"github.com/fxamacker/cbor/v2"
@@ -456,8 +459,8 @@ func newTally() *tally { return &tally{out: map[string]int64{}} }
 type H struct {
 	c     *vlib.Ctx
 	start time.Time
-	def uint8 // the documented default serialization format
-	mu  sync.Mutex
+	def   uint8 // the documented default serialization format
+	mu    sync.Mutex
 }
 
 func (h *H) merge(t *tally) {
@@ -623,7 +626,9 @@ func (h *H) dumpLoad(r ValRef, f fm, t *tally) {
 			t.states++
 			t.evals++
 			if len(blob) < 1 || blob[0] != dsd.GZIP {
-				h.c.Violate("compression-id", site, "wrong-bytes", fmt.Sprintf("%s does not start with the GZIP identifier: %s", dc.how, short(blob)), w)
+				// only a blob that carries the GZIP identifier can be handed to DecompressAndLoad(.., GZIP, ..);
+				// a missing identifier already shows as a failed Load above.
+				t.out["roundtrip:DecompressAndLoad:"+f.name+":no-gzip-identifier"]++
 				continue
 			}
 			res := h.checkLoaded(site+"→DecompressAndLoad", "DecompressAndLoad("+dc.how+"[1:],GZIP)", w, v, sc, want, blob, nil, false,
@@ -714,7 +719,9 @@ func (h *H) checkHTTPLoaded(site string, w Witness, v any, sc *schema, want uint
 	return "ok"
 }
 
-func newReq() *http.Request { return httptest.NewRequest(http.MethodPost, "http://verif.invalid/x", nil) }
+func newReq() *http.Request {
+	return httptest.NewRequest(http.MethodPost, "http://verif.invalid/x", nil)
+}
 
 // httpValue: request path and requested-response path for one (value, format).
 func (h *H) httpValue(r ValRef, f fm, t *tally) {
@@ -1104,6 +1111,8 @@ func newTarget(name string) any {
 		return new([]byte)
 	case "string":
 		return new(string)
+	case "mapiface":
+		return new(map[string]interface{})
 	default:
 		return new(any)
 	}
@@ -1129,39 +1138,152 @@ func idClass(b []byte) string {
 	return "id-unknown"
 }
 
+// callLoad runs one of the load functions on raw input.
+func callLoad(fn string, in []byte, tg any) (err error) {
+	switch fn {
+	case "DecompressAndLoad":
+		_, err = dsd.DecompressAndLoad(in, dsd.GZIP, tg)
+	case "MimeLoad-json":
+		_, err = dsd.MimeLoad(in, "application/json", tg)
+	case "MimeLoad-cbor":
+		_, err = dsd.MimeLoad(in, "application/cbor", tg)
+	case "MimeLoad-msgpack":
+		_, err = dsd.MimeLoad(in, "application/msgpack", tg)
+	case "MimeLoad-yaml":
+		_, err = dsd.MimeLoad(in, "application/yaml", tg)
+	default:
+		_, err = dsd.Load(in, tg)
+	}
+	return err
+}
+
 // loadBytes: Load of an arbitrary byte string: value or error, never a panic.
 func (h *H) loadBytes(fn string, in []byte, target string, out map[string]int64) {
 	tg := newTarget(target)
 	var err error
-	p, stack := vlib.Catch(func() {
-		switch fn {
-		case "DecompressAndLoad":
-			_, err = dsd.DecompressAndLoad(in, dsd.GZIP, tg)
-		case "MimeLoad-json":
-			_, err = dsd.MimeLoad(in, "application/json", tg)
-		case "MimeLoad-cbor":
-			_, err = dsd.MimeLoad(in, "application/cbor", tg)
-		case "MimeLoad-msgpack":
-			_, err = dsd.MimeLoad(in, "application/msgpack", tg)
-		case "MimeLoad-yaml":
-			_, err = dsd.MimeLoad(in, "application/yaml", tg)
-		default:
-			_, err = dsd.Load(in, tg)
-		}
-	})
+	p, stack := vlib.Catch(func() { err = callLoad(fn, in, tg) })
 	if p != nil {
 		h.c.Violate("load-total", fn, vlib.PanicSite(stack), fmt.Sprintf("%s(%s) into %s panicked: %v", fn, short(in), target, p),
 			Witness{Kind: "bytes", Hex: hex.EncodeToString(in), Target: target, Path: fn})
 		out[fn+":"+idClass(in)+":panic"]++
 		return
 	}
-	if out != nil {
-		if err != nil {
-			out[fn+":"+idClass(in)+":error"]++
-		} else {
-			out[fn+":"+idClass(in)+":value"]++
-		}
+	if err != nil {
+		out[fn+":"+idClass(in)+":error"]++
+	} else {
+		out[fn+":"+idClass(in)+":value"]++
 	}
+}
+
+// ---- isolated execution of inputs that claim a huge size
+//
+// A decoder that allocates a *claimed* element count unchecked does not panic,
+// it kills the process ("fatal error: runtime: out of memory"). Such inputs are
+// therefore loaded in a child process (this binary, first argument
+// "probe-child") with an address-space limit, and the parent classifies what
+// happened. Everything else runs in-process.
+
+const childAddressSpace = 4 << 30
+
+func childMain(args []string) {
+	if len(args) != 3 {
+		fmt.Println("RESULT usage")
+		os.Exit(3)
+	}
+	lim := syscall.Rlimit{Cur: childAddressSpace, Max: childAddressSpace}
+	_ = syscall.Setrlimit(syscall.RLIMIT_AS, &lim)
+	in, err := hex.DecodeString(args[1])
+	if err != nil {
+		fmt.Println("RESULT usage")
+		os.Exit(3)
+	}
+	tg := newTarget(args[2])
+	var lerr error
+	p, stack := vlib.Catch(func() { lerr = callLoad(args[0], in, tg) })
+	switch {
+	case p != nil:
+		fmt.Printf("RESULT panic %s\n%v\n", vlib.PanicSite(stack), p)
+	case lerr != nil:
+		fmt.Println("RESULT error")
+	default:
+		fmt.Println("RESULT value")
+	}
+}
+
+// loadBytesIsolated runs one load in a child process.
+func (h *H) loadBytesIsolated(fn string, in []byte, target string, out map[string]int64) {
+	w := Witness{Kind: "bytes", Hex: hex.EncodeToString(in), Target: target, Path: fn}
+	self, err := os.Executable()
+	if err != nil {
+		h.c.EngineError("os.Executable: %v", err)
+		return
+	}
+	cmd := exec.Command(self, "probe-child", fn, w.Hex, target)
+	cmd.Env = append(os.Environ(), "GOMAXPROCS=2", "GOTRACEBACK=single")
+	ob, _ := cmd.CombinedOutput()
+	o := string(ob)
+	key := fn + ":" + idClass(in) + ":isolated:"
+	switch {
+	case strings.Contains(o, "RESULT value"):
+		out[key+"value"]++
+	case strings.Contains(o, "RESULT error"):
+		out[key+"error"]++
+	case strings.Contains(o, "RESULT panic"):
+		site := "unknown"
+		if f := strings.Fields(o[strings.Index(o, "RESULT panic"):]); len(f) >= 3 {
+			site = f[2]
+		}
+		h.c.Violate("load-total", fn, site, fmt.Sprintf("%s(%s) into %s panicked: %s", fn, short(in), target, firstLine(o)), w)
+		out[key+"panic"]++
+	case strings.Contains(o, "fatal error:"):
+		kind := "fatal-error"
+		if strings.Contains(o, "out of memory") || strings.Contains(o, "cannot allocate memory") {
+			kind = "fatal-out-of-memory"
+		}
+		at := ""
+		if i := strings.Index(o, "goroutine "); i >= 0 {
+			for _, l := range strings.Split(o[i:], "\n") {
+				if strings.Contains(l, "(") && !strings.HasPrefix(l, "runtime.") && !strings.HasPrefix(l, "goroutine") && !strings.HasPrefix(l, "\t") {
+					at = strings.TrimSpace(l[:strings.LastIndex(l, "(")])
+					break
+				}
+			}
+		}
+		h.c.Violate("load-total", fn, kind+"("+vlib.PanicSite(o)+")",
+			fmt.Sprintf("%s(%s) into %s killed the process (address space limited to %d GiB): %s; allocating frame: %s. The input is %d bytes long; the decoder allocates the element count the input claims before reading the elements.",
+				fn, short(in), target, childAddressSpace>>30, firstLine(o[strings.Index(o, "fatal error:"):]), at, len(in)), w)
+		out[key+kind]++
+	default:
+		h.c.EngineError("probe child for %s(%s) into %s: unexpected output %q", fn, short(in), target, firstLine(o))
+	}
+}
+
+func firstLine(s string) string {
+	s = strings.TrimSpace(s)
+	if i := strings.IndexByte(s, '\n'); i >= 0 {
+		s = s[:i]
+	}
+	if len(s) > 200 {
+		s = s[:200]
+	}
+	return s
+}
+
+// claimsHugeSize: could this input make the MsgPack decoder allocate a claimed
+// 32-bit element count (array32 = dd, map32 = df) for an interface{} target?
+// (Those are the two unchecked allocations of msgpack v5; all other claimed
+// sizes of the codecs are capped by the libraries.)
+func claimsHugeSize(in []byte, target string) bool {
+	if target != "iface" && target != "mapiface" {
+		return false
+	}
+	if len(in) < 6 || (in[0] != dsd.MsgPack && in[0] != dsd.GZIP) {
+		return false
+	}
+	if in[0] == dsd.GZIP {
+		return false // not decidable without decompressing; callers only pass crafted gzip inputs through loadBytesIsolated
+	}
+	return bytes.IndexByte(in[1:], 0xdd) >= 0 || bytes.IndexByte(in[1:], 0xdf) >= 0
 }
 
 func gzipID(w *gzip.Writer, buf *bytes.Buffer, inner []byte) []byte {
@@ -1176,6 +1298,10 @@ func gzipID(w *gzip.Writer, buf *bytes.Buffer, inner []byte) []byte {
 // ---------------------------------------------------------------- main
 
 func main() {
+	if len(os.Args) > 1 && os.Args[1] == "probe-child" {
+		childMain(os.Args[2:])
+		return
+	}
 	vlib.Main("C09", "model_checking", func(c *vlib.Ctx) {
 		h := &H{c: c, def: dsd.DefaultSerializationFormat, start: time.Now()}
 		c.SetBudget(vlib.Pick(c, 5*time.Minute, 25*time.Minute))
@@ -1190,6 +1316,7 @@ func main() {
 		c.Assume("which supported type is chosen for an Accept header is not asserted, only that the dump is served and Content-Type names the body's encoding; elements with white space before ';' and bare/lenient spellings (json, text/yaml, *) are executed but success is not required (http_test.go documents 'yaml ;charset' as invalid)")
 		c.Assume("integers beyond +-(2^53-1) in 64-bit fields are executed and their outcome recorded, nothing is asserted (outside the interoperable range of the quantifier)")
 		c.Assume("values a codec refuses to encode (YAML: DEL and C1 control characters) are not values representable in that format and are not in the alphabet")
+		c.Assume("inputs that claim a huge element count (well-formed MsgPack/CBOR headers up to 2^32-1 resp. 2^62 elements with no elements present) are loaded in a child process whose address space is limited to 4 GiB; a decoder that allocates the claimed count kills that process ('fatal error: out of memory'), which counts as a violation of 'never panics'; in-process enumeration keeps such inputs out")
 		c.Assume("the totality clause uses load targets whose own unmarshal code is total; gencode-generated GenCodeUnmarshal code (user code, indexes without bounds checks) is not part of dsd")
 
 		if c.Replay != "" {
@@ -1495,7 +1622,11 @@ func (h *H) totality(stopped *atomic.Bool) {
 		tgs := []string{sd.target, "iface"}
 		run := func(b []byte) {
 			for _, tn := range tgs {
-				h.loadBytes("Load", b, tn, m)
+				if claimsHugeSize(b, tn) {
+					h.loadBytesIsolated("Load", b, tn, m)
+				} else {
+					h.loadBytes("Load", b, tn, m)
+				}
 				calls++
 			}
 			s++
@@ -1518,6 +1649,53 @@ func (h *H) totality(stopped *atomic.Bool) {
 		flush(m, s, s, calls)
 	})
 	c.Sample(map[string]any{"kind": "bytes", "input": "every prefix and every single-byte substitution of " + fmt.Sprint(len(seeds)) + " valid plain and gzip dumps", "reference": "value or error, no panic"})
+	// 3f. inputs that claim a huge size (well-formed headers, tiny actual input), each in a child process
+	{
+		be := func(head byte, n uint64, width int) []byte {
+			b := []byte{head}
+			for i := width - 1; i >= 0; i-- {
+				b = append(b, byte(n>>(8*uint(i))))
+			}
+			return b
+		}
+		var claims [][]byte
+		mp := func(b []byte) { claims = append(claims, append([]byte{dsd.MsgPack}, b...)) }
+		cb := func(b []byte) { claims = append(claims, append([]byte{dsd.CBOR}, b...)) }
+		for _, n := range []uint64{1 << 20, 1<<31 - 1, 1<<32 - 1} {
+			mp(be(0xdd, n, 4))                                     // array32
+			mp(be(0xdf, n, 4))                                     // map32
+			mp(be(0xc6, n, 4))                                     // bin32
+			mp(be(0xdb, n, 4))                                     // str32
+			mp(append(be(0xc9, n, 4), 0x01))                       // ext32
+			mp(append([]byte{0x81, 0xa1, 'M'}, be(0xdf, n, 4)...)) // map32 as a map value (field M of the struct)
+			mp(append([]byte{0x91}, be(0xdd, n, 4)...))            // array32 inside an array
+			cb(be(0x5a, n, 4))                                     // byte string
+			cb(be(0x9a, n, 4))                                     // array
+			cb(be(0xba, n, 4))                                     // map
+		}
+		mp(be(0xdc, 0xffff, 2))
+		mp(be(0xde, 0xffff, 2))
+		for _, head := range []byte{0x5b, 0x7b, 0x9b, 0xbb} {
+			cb(be(head, 1<<62, 8))
+		}
+		var zb bytes.Buffer
+		zw, _ := gzip.NewWriterLevel(&zb, gzip.HuffmanOnly)
+		n0 := len(claims)
+		for i := 0; i < n0; i++ {
+			claims = append(claims, gzipID(zw, &zb, claims[i]))
+		}
+		tgs := []string{"val", "iface", "mapiface"}
+		c.Extra("claimed_size_inputs", int64(len(claims)))
+		c.ParallelFor(len(claims), func(i int) {
+			m := map[string]int64{}
+			for _, tn := range tgs {
+				h.loadBytesIsolated("Load", claims[i], tn, m)
+			}
+			flush(m, 1, 1, int64(len(tgs)))
+		})
+		c.Sample(map[string]any{"kind": "bytes", "input_hex": "4ddfffffffff", "targets": tgs, "isolated": "child process, 4 GiB address space", "reference": "MsgPack map32 header claiming 2^32-1 entries, no entries present: value or error, the process must survive"})
+		fmt.Printf("phase 3f: %d claimed-size inputs x %d targets in child processes done (%.0fs)\n", len(claims), len(tgs), time.Since(h.start).Seconds())
+	}
 	for k, v := range total {
 		c.OutcomeN("total:"+k, v)
 	}
@@ -1572,7 +1750,7 @@ func (h *H) replay() {
 		if fn == "" {
 			fn = "Load"
 		}
-		h.loadBytes(fn, in, w.Target, t.out)
+		h.loadBytesIsolated(fn, in, w.Target, t.out) // in a child process: the input may kill the process
 		t.states, t.trans, t.evals = 1, 1, 1
 	default:
 		c.EngineError("replay: unknown kind %q", w.Kind)
